@@ -377,7 +377,10 @@ class RunLengthArray(NPSIndexable, np.lib.mixins.NDArrayOperatorsMixin):
         return self._apply_binary_func(*inputs, ufunc)
 
     def sum(self, axis=-1, out=None):
-        return np.sum(np.diff(self._events)*self._values)
+        lengths = np.diff(self._events)
+        if np.issubdtype(self._values.dtype, np.unsignedinteger):
+            lengths = lengths.astype(np.uint64)  # int64*uint64 would be promoted to float64
+        return np.sum(lengths*self._values)
 
     def any(self, axis=-1, out=None):
         """TODO, this can be sped up by assuming no empty runs"""
@@ -654,9 +657,17 @@ class RunLength2dArray(IndexableMixin, np.lib.mixins.NDArrayOperatorsMixin):
         assert (axis == -1 or axis is None)
         lens = (self._indices[:, 1:]-self._indices[:, :-1])
         if self._row_len is None:
+            last_len = None
+        else:
+            last_len = self._row_len-self._indices[:, -1]
+        if np.issubdtype(self._values.dtype, np.unsignedinteger):
+            # int64*uint64 would be promoted to float64
+            lens = lens.astype(np.uint64)
+            last_len = None if last_len is None else last_len.astype(np.uint64)
+        if self._row_len is None:
             return np.sum(self._values*lens, axis=-1)
         internal_sum = np.sum(self._values[:, :-1] * lens, axis=-1)
-        return internal_sum + self._values[:, -1]*(self._row_len-self._indices[:, -1])
+        return internal_sum + self._values[:, -1]*last_len
 
     def _col_sum(self):
         positions = self._indices.ravel()
